@@ -716,7 +716,7 @@ def _daemon(ctx, processor, rng, scratch, ro):
     plans = [(merged, gen_env(rng, 1000 + i, daemon=True, ro=ro), [r]) for i, r in enumerate(routes)]
     if not ctx.quick():
         plans += [(e, e, routes) for e in corpus]
-        plans += [(gen_env(rng, i, daemon=True, ro=ro), gen_env(rng, 5000 + i, daemon=True, ro=ro), [routes[i % 3]]) for i in range(60)]
+        plans += [(gen_env(rng, i, daemon=True, ro=ro), gen_env(rng, 5000 + i, daemon=True, ro=ro), [routes[i % 3]]) for i in range(30)]
         # big transfers (several pipe buffers)
         big = {"VT_big%d" % i: gen_value(rng) * 40 + "é'\\" * 2000 for i in range(8)}
         plans.append((big, merged, routes))
